@@ -365,6 +365,21 @@ def classify(p, got, want, path, wb=None):
     return None
 
 
+def _single_refs(ast, home):
+    """keys of the cells an expression reads through single-cell references"""
+    out = set()
+    if not isinstance(ast, tuple):
+        return out
+    if ast and ast[0] == 'ref':
+        out.add((ast[1] or home, ast[2], ast[3]))
+        return out
+    for x in ast[1:]:
+        if isinstance(x, (tuple, list)):
+            for y in (x if isinstance(x, list) else [x]):
+                out |= _single_refs(y, home)
+    return out
+
+
 def run(ctx):
     rng = ctx.rng
     thorough = ctx.tier == 'thorough'
@@ -390,6 +405,7 @@ def run(ctx):
         # unknown function as their last operand): evaluated, and caught,
         # before the cells are re-assigned
         failing = []
+        read_by_failed = set()
         for si, s_ in enumerate(sheets[:2]):
             other = sheets[(si + 1) % len(sheets)]
             key = (s_, 40, 1)
@@ -401,6 +417,9 @@ def run(ctx):
             for p in rng.sample(probes, min(len(probes), 10)):
                 ast = ('bin', '+', ast, ('call', 'COUNTA', [
                     ('ref', p.key[0], p.key[1], p.key[2], False, False)]))
+                # the single cells this precedent reads: some of them are
+                # re-assigned below, after the failure
+                read_by_failed.update(_single_refs(p.ast, p.key[0]))
             wb.cells[key] = ('f', ('bin', '+', ast, (
                 'call', 'NOSUCHFUNCTION', [('lit', 1, '1')])))
             failing.append(key)
@@ -554,6 +573,8 @@ def run(ctx):
         numeric = [k for k, v in cells.items()
                    if isinstance(v, (int, float)) and not isinstance(v, bool)]
         changed = rng.sample(numeric, min(len(numeric), 5))
+        changed += [k for k in sorted(read_by_failed)
+                    if k in numeric and k not in changed][:4]
         # cells that carry a defined name are (also) re-assigned through it
         name_of = {(t[1], t[2], t[3]): nm for nm, t in names.items()
                    if t[0] == 'ref' and nm in model.defined_names}
